@@ -133,6 +133,9 @@ func evaluate(j job, driver string) scenRecord {
 	if o.Spec.IdleMs > 0 {
 		cnt("idle-longer-than-write-timeout")
 	}
+	if o.Spec.ApplyConfigs > 0 {
+		cnt("apply-config-while-sending")
+	}
 	rec.Counts["sends"] += len(o.Sends)
 	rec.Counts["frames-received"] += len(an.Delivered)
 	rec.Counts["connections"] += len(o.Conns)
@@ -185,6 +188,14 @@ func evaluate(j job, driver string) scenRecord {
 			rec.pending = &pendingReplay{o, an, w}
 		}
 	}
+	// the byte streams and the frames are not needed any more (the model replay at the end of the batch
+	// works on the analysis): a thorough batch would otherwise hold gigabytes
+	for _, c := range o.Conns {
+		c.data = nil
+	}
+	for _, s := range o.Sends {
+		s.frame, s.tp = nil, nil
+	}
 	return rec
 }
 
@@ -198,7 +209,7 @@ func crashClass(sp scenarioSpec) string {
 // childMain: run the jobs of the spec file, stream records.
 func childMain(env *vh.Env) {
 	if *flagChildD70 {
-		budget := 16 * time.Second
+		budget := 8 * time.Second
 		if env.Thorough {
 			budget = 60 * time.Second
 		}
@@ -273,10 +284,37 @@ func childMain(env *vh.Env) {
 			lines[i] = r.pending.w.line
 		}
 		outs, err := vh.RunDriver(env.Driver, lines)
+		// second placement of accepted Puts for the witnesses the driver refused at a Put / take
+		var retry []int
+		if err == nil {
+			for i, r := range pend {
+				if rejectedAtPut(outs[i]) && r.Spec.Mode == "queue" {
+					retry = append(retry, i)
+				}
+			}
+		}
+		if len(retry) > 0 {
+			alt := make([]string, len(retry))
+			alts := make([]*witness, len(retry))
+			for k, i := range retry {
+				alts[k] = buildWitnessMode(pend[i].pending.o, pend[i].pending.an, true)
+				alt[k] = alts[k].line
+			}
+			if outs2, err2 := vh.RunDriver(env.Driver, alt); err2 == nil {
+				for k, i := range retry {
+					if !rejectedAtPut(outs2[k]) {
+						outs[i], lines[i], pend[i].pending.w = outs2[k], alt[k], alts[k]
+					}
+				}
+			}
+		}
 		for i, r := range pend {
 			c := scenRecord{Event: "corr", Idx: r.Idx, Spec: r.Spec, Line: vh.Clip(lines[i], 4000)}
 			if err != nil {
 				c.Corr = "driver: " + err.Error()
+			} else if rejectedAtPut(outs[i]) && r.Spec.Mode == "queue" {
+				// neither placement of the Puts is the real interleaving: not an observation the harness can order
+				c.WitnessSkip = "the order of concurrent Puts and takes could not be reconstructed (" + vh.Clip(outs[i], 80) + ")"
 			} else {
 				c.DriverOut = vh.Clip(outs[i], 4000)
 				c.Corr = compareWitness(r.pending.o, r.pending.an, r.pending.w, outs[i])
@@ -362,6 +400,9 @@ func runChild(env *vh.Env, jobs []job, par int, timeout time.Duration) *childRun
 			} else if r.Event == "corr" {
 				if d, ok := cr.done[r.Idx]; ok {
 					d.Corr, d.Line, d.DriverOut, d.Admitted, d.Log = r.Corr, r.Line, r.DriverOut, r.Admitted, r.Log
+					if r.WitnessSkip != "" {
+						d.WitnessSkip = r.WitnessSkip
+					}
 				}
 			}
 		}
@@ -522,6 +563,33 @@ func runIsolated(env *vh.Env, jobs []job, par int) (map[int]*scenRecord, []crash
 		notes = append(notes, fmt.Sprintf("%d scenarios were never run (child processes kept dying)", len(pending)))
 	}
 	return done, crashes, notes
+}
+
+// runD70Isolated runs the D70 replay (ApplyConfig while sending) in its own process.
+func runD70Isolated(env *vh.Env) ([]d70Result, string) {
+	var d []d70Result
+	exe, err := os.Executable()
+	if err != nil {
+		return d, err.Error()
+	}
+	outFile := tmpName(os.TempDir(), "d70.json")
+	defer os.Remove(outFile)
+	ctx, cancel := context.WithTimeout(context.Background(), 10*time.Minute)
+	defer cancel()
+	cmd := exec.CommandContext(ctx, exe, "-child-d70", "-child-out", outFile, "-tier", env.Tier, "-seed", fmt.Sprint(env.Seed), "-repo", env.Repo)
+	var errb tailBuffer
+	cmd.Stderr = &errb
+	cmd.Stdout = &errb
+	runErr := cmd.Run()
+	b, rerr := os.ReadFile(outFile)
+	if rerr == nil && json.Unmarshal(b, &d) == nil {
+		return d, ""
+	}
+	msg := "the process running the D70 replay died"
+	if runErr != nil {
+		msg += " (" + runErr.Error() + ")"
+	}
+	return d, msg + ": " + crashText(errb.String())
 }
 
 // runD42Isolated runs the D42 replay in its own process.
